@@ -302,11 +302,90 @@ class C14(Prop):
             return f"the refused request was not answered with the excessive-usage error (codes {obs['codes']})"
         return None
 
+    # ---- the websocket transport: text frames are charged by their size in BYTES, like every other chunk received
+    @staticmethod
+    def ws_scenario(case):
+        import asyncio, json
+        from aiorpcx import websocket as wsmod, RPCSession
+        from aiorpcx.session import SessionKind
+
+        class FakeWS:
+            def __init__(self, frames):
+                self.frames = list(frames)
+                self.sent = []
+                self.more = asyncio.Event()
+                self.closed = False
+
+            async def recv(self):
+                while not self.frames:
+                    self.more.clear()
+                    await self.more.wait()
+                return self.frames.pop(0)
+
+            async def send(self, data):
+                self.sent.append(data)
+
+            async def close(self):
+                self.closed = True
+
+        class Srv(RPCSession):
+            cost_decay_per_sec = 0
+
+            async def handle_request(self, request):
+                return 1
+
+        async def main():
+            ws = FakeWS([])
+            tr = wsmod.WSTransport(ws, Srv, SessionKind.SERVER)
+            s = tr.session
+            task = asyncio.ensure_future(tr.process_messages())
+            rows = []
+            for i, (text, as_text) in enumerate(case['frames']):
+                msg = json.dumps({'jsonrpc': '2.0', 'method': 'm', 'params': [text], 'id': i}, ensure_ascii=False)
+                frame = msg if as_text else msg.encode()
+                c0, r0, n0 = s.cost, s.recv_size, len(ws.sent)
+                ws.frames.append(frame)
+                ws.more.set()
+                for _ in range(20):
+                    await asyncio.sleep(0)
+                reply = ws.sent[n0:] if len(ws.sent) > n0 else []
+                out_bytes = sum(len(x.encode() if isinstance(x, str) else x) for x in reply)
+                rows.append({'in_bytes': len(msg.encode()), 'out_bytes': out_bytes, 'dcost': s.cost - c0, 'drecv': s.recv_size - r0,
+                             'rate': s.bw_cost_per_byte, 'text': as_text})
+            task.cancel()
+            await asyncio.gather(task, return_exceptions=True)
+            return {'rows': rows}
+        return asyncio.run(main())
+
+    @staticmethod
+    def ws_oracle(case, obs):
+        for r in obs['rows']:
+            if r['drecv'] != r['in_bytes']:
+                return (f"a websocket {'text' if r['text'] else 'binary'} frame of {r['in_bytes']} bytes was counted as "
+                        f"{r['drecv']} bytes received")
+            want = (r['in_bytes'] + r['out_bytes'] - 1) * r['rate']      # (the reply is counted unframed)
+            if not (want - 1e-9 <= r['dcost'] <= want + 2 * r['rate'] + 1e-9):
+                return (f"a websocket frame of {r['in_bytes']} bytes (reply {r['out_bytes']}) raised the cost by {r['dcost']}, "
+                        f"the per-byte rate gives {want}")
+        return None
+
     def extra_checks(self, ctx):
         from harness.core import Failure
         out = []
         rng = ctx['rng']
         nref = 0
+        wcase = {'ws': True, 'frames': [['plain ascii', True], ['caf\u00e9 ' * 30, True], ['\u4e2d\u6587' * 40, True], ['\U0001f600' * 25, True],
+                                       ['\u4e2d\u6587' * 40, False], ['x' * 500, True]]}
+        try:
+            wobs = self.ws_scenario(wcase)
+            cl = self.ws_oracle(wcase, wobs)
+            ctx['extra_evals'] += 1
+            ctx['notes'].append('websocket transport (fake websocket object): text and binary frames with 1-4 byte characters charged by byte size')
+        except ImportError:
+            wobs, cl = None, None
+            ctx['notes'].append('websocket transport not importable: skipped')
+        if cl:
+            out.append(Failure(wcase, wobs, cl))
         for shape in ('request', 'notification', 'notification_batch', 'mixed_batch'):
             for transport in ('rs', 'us'):
                 for over in (0, 1, 5000):
